@@ -117,6 +117,9 @@ package mqtt
 //@        (evRet[int]("select", 0, 0) == 0 ==> result1 == nil) &&
 //@        (evRet[int]("select", 0, 0) == 1 ==> result0 == false && evArg[<-chan struct{}]("select", 0, 1) == evRet[<-chan struct{}]("context.Context.Done", 0, 0) && evArg[context.Context]("context.Context.Done", 0, 0) == ctx)
 //@   ensures[C13] ping_interval_default: evCount("go:(*reconnectClient).Connect$1") == 1 && pi0 != 0 ==> c.options.PingInterval == pi0
+//@   let to0 time.Duration = c.options.Timeout
+//@   ensures[C13] ping_interval_from_keepalive: evCount("go:(*reconnectClient).Connect$1") == 1 && pi0 == 0 ==> c.options.PingInterval == time.Duration(connOptions.KeepAlive)*time.Second
+//@   ensures[C09,C13] timeout_default: evCount("go:(*reconnectClient).Connect$1") == 1 ==> c.options.Timeout == ite(to0 != 0, to0, c.options.PingInterval)
 
 //@ closer reconnectClient.disconnected (*reconnectClient).Disconnect
 
@@ -131,3 +134,64 @@ package mqtt
 //@        evArg[<-chan struct{}]("select", 0, 1) == evRet[<-chan struct{}]("context.Context.Done", 0, 0) && evArg[context.Context]("context.Context.Done", 0, 0) == ctx &&
 //@        (evRet[int]("select", 0, 0) == 0 ==> result == evRet[error]("(*RetryClient).Disconnect", 0, 0)) &&
 //@        (evRet[int]("select", 0, 0) == 1 && asError(result) != nil ==> asError(result).Err == evRet[error]("context.Context.Err", 0, 0) && evArg[context.Context]("context.Context.Err", 0, 0) == ctx)
+
+// ---- reconnect options (C09, C13, C08): each constructor sets exactly its own fields ----
+
+//@ func WithTimeout$1
+//@   mode int
+//@   props C09 C13
+//@   requires o != nil
+//@   assigns o.Timeout
+//@   ensures[C09,C13] sets: result == nil && o.Timeout == timeout
+
+//@ func WithReconnectWait$1
+//@   mode int
+//@   props C09
+//@   requires o != nil
+//@   assigns o.ReconnectWaitBase; o.ReconnectWaitMax
+//@   ensures[C09] sets: result == nil && o.ReconnectWaitBase == base && o.ReconnectWaitMax == max
+
+//@ func WithPingInterval$1
+//@   mode int
+//@   props C13
+//@   requires o != nil
+//@   assigns o.PingInterval
+//@   ensures[C13] sets: result == nil && o.PingInterval == interval
+
+//@ func WithRetryClient$1
+//@   mode int
+//@   props C09
+//@   requires o != nil
+//@   assigns o.RetryClient
+//@   ensures[C09] sets: result == nil && o.RetryClient == cli
+
+//@ func WithAlwaysResubscribe$1
+//@   mode int
+//@   props C08
+//@   requires o != nil
+//@   assigns o.AlwaysResubscribe
+//@   ensures[C08] sets: result == nil && o.AlwaysResubscribe == always
+
+//@ fntype ReconnectOption
+//@   shape o *ReconnectOptions -> result error
+//@   assigns *o
+
+//@ spec
+//@ func asReconn(c ReconnectClient) *reconnectClient { r, _ := c.(*reconnectClient); return r }
+//@ end
+
+//@ func NewReconnectClient
+//@   mode int
+//@   props C09
+//@   requires dialer != nil
+//@   requires forall(0, len(opts), func(i int) bool { return opts[i] != nil })
+//@   assigns nothing
+//@   loop 1 invariant options != nil
+//@   ensures[C09] option_error: result1 != nil ==> result0 == nil
+//@   ensures[C09] built: result1 == nil ==> asReconn(result0) != nil && fresh(asReconn(result0)) && asReconn(result0).dialer == dialer &&
+//@        asReconn(result0).done != nil && fresh(asReconn(result0).done) && !closed(asReconn(result0).done) &&
+//@        asReconn(result0).disconnected != nil && fresh(asReconn(result0).disconnected) && !closed(asReconn(result0).disconnected) &&
+//@        asReconn(result0).options == options && asReconn(result0).RetryClient == options.RetryClient
+//@   ensures[C09] defaults: result1 == nil && len(opts) == 0 ==> asReconn(result0).options.ReconnectWaitBase == time.Second &&
+//@        asReconn(result0).options.ReconnectWaitMax == 10*time.Second && asReconn(result0).RetryClient != nil && fresh(asReconn(result0).RetryClient) &&
+//@        asReconn(result0).options.Timeout == 0 && asReconn(result0).options.PingInterval == 0 && !asReconn(result0).options.AlwaysResubscribe
